@@ -34,7 +34,7 @@ RULE = {
     "C14": ("one evaluation = one seeded history of 3-14 steps (query via search or __call__, clean restart with new "
             "overwrite/cache_only/directory_split/slicing options, update_from_tree) over a pool of 3-7 adversarially "
             "similar contractions through a ReusableHyperOptimizer or ReusableRandomGreedyOptimizer, in memory or on a "
-            "scratch directory behind the simulated FS layer; the caller may mutate returned trees or keep one set of "
+            "scratch directory behind the simulated FS layer; index labels are characters, multi-character strings or integers (with a look-alike whose labels concatenate alike); after some answers a fresh cache_only process reads the entry back; the caller may mutate returned trees or keep one set of "
             "argument containers, and in ~8% of the hyper histories' queries every trial of the inner search is made to fail "
             "(the query may fail, nothing for another contraction may come back); every answer is judged against a reference model of what "
             "was acknowledged. distinct_nontrivial counts distinct (model key-set, optimizer configuration, restart "
@@ -74,7 +74,8 @@ EXPECTED_PROBES = {
     "C14": ["probe:hit_after_restart", "probe:hit_same_process", "probe:improved_overwrite_search", "probe:cache_only_refusal",
             "probe:cache_only_hit", "probe:shared_entry_allowed", "probe:sliced_entry_served", "step:update_from_tree",
             "probe:hash_b_hit", "probe:shared_mutable_args", "probe:caller_mutated_returned_tree",
-            "all_trials_failed", "probe:query_failed_cleanly_after_trial_faults"],
+            "all_trials_failed", "probe:query_failed_cleanly_after_trial_faults", "probe:labels_int", "probe:labels_multichar",
+            "probe:readback_by_fresh_process"],
     "C15": ["crash:open", "crash:write-torn", "crash:mkdir", "outcome:old-entry-served", "outcome:new-entry-served",
             "outcome:searched-again", "probe:real_exit_crosscheck", "probe:second_crash", "probe:other_entries_checked",
             "probe:two_writer_threads"],
